@@ -249,6 +249,7 @@ pub fn build_case(ch_all: &mut Ch, fixtures: &[String]) -> Case {
         p.stmts = (0, 3);
         p.groups = (0, 2);
         p.bindings = (1, 3);
+        p.phony_refs = 3;
         // keep inside the generator's supported set so that 'accepted' cases really exercise generation
         render(&gen_shader(ch, &p))
     };
